@@ -293,7 +293,7 @@ func run(c *core.Case) {
 		re, _ := reissued()
 		return fmt.Sprintf("config {%s}\nsnapshots after Close: %v; variant %s; reissued series refs: %v\nhistory: %s", cfg, snaps, variant, re, h)
 	}
-	var unclean string                    // image for the outdated-snapshot variant
+	var unclean string // image for the outdated-snapshot variant
 	uncleanAt := -1
 	if variant == "outdated-snapshot-unclean-image" {
 		uncleanAt = nops/2 + r.IntN(nops/2+1)
